@@ -8,6 +8,7 @@ import (
 	"unicode/utf8"
 
 	mail "github.com/wneessen/go-mail"
+	"github.com/wneessen/go-mail/smtp"
 
 	"verif/hx"
 	"verif/refsmtp"
@@ -18,7 +19,9 @@ import (
 // C05 — envelope addresses and command lines cannot be smuggled.
 
 type c05Case struct {
-	Kind   string `json:"kind"` // "addr", "helo", "cred", "dsn"
+	Kind   string `json:"kind"`            // "addr", "helo", "cred", "dsn", "smtpapi"
+	Calls  []int  `json:"calls,omitempty"` // smtpapi: sequence of smtp.Client calls
+	Arg    string `json:"arg,omitempty"`   // smtpapi: the hostile argument
 	Local  string `json:"local,omitempty"`
 	Quoted bool   `json:"quoted,omitempty"`
 	Domain string `json:"domain,omitempty"`
@@ -31,7 +34,7 @@ type c05Case struct {
 }
 
 var c05Setters = []string{"From", "EnvelopeFrom", "To", "Cc", "Bcc", "FromFormat", "AddToFormat", "AddBccFormat"}
-var c05Alphabet = []string{"a", ".", " ", "<", ">", "@", ",", ";", ":", `\`, `"`, "ü", "(", "+"}
+var c05Alphabet = []string{"a", ".", " ", "<", ">", "@", ",", ";", ":", `\`, `"`, "ü", "(", "+", "%"}
 var c05Mechs = []string{"PLAIN", "LOGIN", "CRAM-MD5", "XOAUTH2", "SCRAM-SHA-256"}
 
 // isDotAtom reports whether s is an RFC 5322 dot-atom-text (RFC 6532: UTF-8 allowed).
@@ -77,7 +80,72 @@ func localClass(l string) string {
 	return strings.Join(cs, "+")
 }
 
+var c05APICalls = []string{"Hello(arg)", "Mail(arg)", "Rcpt(arg)", "Verify(arg)", "Noop", "Reset", "Extension", "Quit", "Mail(ok)", "Rcpt(ok)"}
+
+// c05ExecAPI drives smtp.Client directly: every call sequence over the exported methods with one hostile argument.
+func c05ExecAPI(r *vf.Run, k c05Case) []finding {
+	var out []finding
+	sess := &refsmtp.Session{Host: hx.Host, Caps: []string{"8BITMIME", "SMTPUTF8", "DSN"}}
+	conn := refsmtp.NewConn(sess)
+	pan, pw := vf.Guard(func() {
+		cl, err := smtp.NewClient(conn, hx.Host)
+		if err != nil {
+			return
+		}
+		for _, c := range k.Calls {
+			switch c05APICalls[c] {
+			case "Hello(arg)":
+				_ = cl.Hello(k.Arg)
+			case "Mail(arg)":
+				_ = cl.Mail(k.Arg)
+			case "Rcpt(arg)":
+				_ = cl.Rcpt(k.Arg)
+			case "Verify(arg)":
+				_ = cl.Verify(k.Arg)
+			case "Noop":
+				_ = cl.Noop()
+			case "Reset":
+				_ = cl.Reset()
+			case "Extension":
+				_, _ = cl.Extension("8BITMIME")
+			case "Quit":
+				_ = cl.Quit()
+			case "Mail(ok)":
+				_ = cl.Mail("sender@snd.example")
+			case "Rcpt(ok)":
+				_ = cl.Rcpt("rcpt@rcp.example")
+			}
+		}
+		_ = cl.Close()
+	})
+	if pan {
+		return []finding{{"panic/" + vf.PanicSite(pw), firstLine(pw)}}
+	}
+	var names []string
+	for _, c := range k.Calls {
+		names = append(names, c05APICalls[c])
+	}
+	for _, il := range sess.Illegal {
+		switch il.Key {
+		case "line-ending", "line-ctl", "helo-syntax", "mail-syntax", "mail-path-syntax", "mail-param-syntax", "rcpt-syntax", "rcpt-path-syntax", "rcpt-param-syntax", "unknown-command", "pipelining", "param-unknown":
+			// sequence errors (RCPT without MAIL …) are the caller's business at this API level; malformed lines are not
+			if il.Key == "helo-syntax" && !strings.ContainsAny(k.Arg, " \t\r\n") {
+				continue // not a domain, but a single argument (known finding of the mail-level check)
+			}
+			if (strings.HasPrefix(il.Key, "mail-") || strings.HasPrefix(il.Key, "rcpt-") || il.Key == "param-unknown") && !strings.ContainsAny(k.Arg, "\r\n") {
+				continue // smtp.Client.Mail/Rcpt take the path as given; quoting is done by the mail package
+			}
+			out = append(out, finding{fmt.Sprintf("smtp-api/malformed-command/%s/arg=%s", il.Key, valueClass([]byte(k.Arg))), fmt.Sprintf("smtp.Client calls %v with argument %q: %s", names, k.Arg, il.What)})
+			return out
+		}
+	}
+	return out
+}
+
 func c05Exec(r *vf.Run, k c05Case) []finding {
+	if k.Kind == "smtpapi" {
+		return c05ExecAPI(r, k)
+	}
 	var out []finding
 	add := func(key, f string, a ...interface{}) { out = append(out, finding{key, fmt.Sprintf(f, a...)}) }
 	caps := []string{"8BITMIME", "SMTPUTF8", "DSN", "AUTH " + strings.Join(c05Mechs, " ")}
@@ -226,7 +294,7 @@ func init() {
 	vf.Register(&vf.Check{
 		ID: "C05", Title: "envelope addresses and command lines cannot be smuggled",
 		Run: func(r *vf.Run) {
-			r.SetRule("local parts: ALL strings of length 1..L over {a . SP < > @ , ; : \\ \" ü ( +} offered bare and as quoted-string × domain {example.com, [192.0.2.1]} × setter {From, EnvelopeFrom, To, Cc, Bcc, FromFormat, AddToFormat, AddBccFormat}; HELO names {plain, blank inside, CRLF + command, TAB, UTF-8, 300 chars, empty label}; user names/passwords over a hostile alphabet for PLAIN/LOGIN/CRAM-MD5/XOAUTH2/SCRAM; all 16 DSN option combinations; every command line the client writes is judged by the strict RFC 5321 parser of the reference server and the parsed path must denote the mailbox the caller set (own RFC 5322 dot-atom/quoted-string reading of the input); distinct by case tuple")
+			r.SetRule("local parts: ALL strings of length 1..L over {a . SP < > @ , ; : \\ \" ü ( +} offered bare and as quoted-string × domain {example.com, [192.0.2.1]} × setter {From, EnvelopeFrom, To, Cc, Bcc, FromFormat, AddToFormat, AddBccFormat}; HELO names {plain, blank inside, CRLF + command, TAB, UTF-8, 300 chars, empty label}; user names/passwords over a hostile alphabet for PLAIN/LOGIN/CRAM-MD5/XOAUTH2/SCRAM; all 16 DSN option combinations; smtp.Client used directly: all call sequences of length 1..3 over {Hello, Mail, Rcpt, Verify with a hostile argument, Noop, Reset, Extension, Quit, Mail/Rcpt with a good argument} × 9 hostile arguments; every command line the client writes is judged by the strict RFC 5321 parser of the reference server and the parsed path must denote the mailbox the caller set (own RFC 5322 dot-atom/quoted-string reading of the input); distinct by case tuple")
 			r.Assume("a bare local part that is not an RFC 5322 dot-atom has no defined mailbox: only the line discipline is judged for it", "SMTPUTF8 is advertised so that UTF-8 local parts are legal on the wire")
 			L := 3
 			var cases []c05Case
@@ -266,6 +334,22 @@ func init() {
 			}
 			for d := 0; d < 16; d++ {
 				cases = append(cases, c05Case{Kind: "dsn", DSN: d})
+			}
+			// smtp.Client used directly: all call sequences of length 1..3 over its methods with a hostile argument
+			hostile := []string{"a b", "x\r\nRSET", "x\nNOOP", "x\ry", "a\tb", "a@b.example> BODY=8BITMIME", "plain.example", "%s%d", ""}
+			nc := len(c05APICalls)
+			for _, arg := range hostile {
+				for a := 0; a < nc; a++ {
+					cases = append(cases, c05Case{Kind: "smtpapi", Calls: []int{a}, Arg: arg})
+					for b := 0; b < nc; b++ {
+						cases = append(cases, c05Case{Kind: "smtpapi", Calls: []int{a, b}, Arg: arg})
+						for cc := 0; cc < nc; cc++ {
+							if a <= 3 || b <= 3 || cc <= 3 {
+								cases = append(cases, c05Case{Kind: "smtpapi", Calls: []int{a, b, cc}, Arg: arg})
+							}
+						}
+					}
+				}
 			}
 			r.Extra("local_parts", len(locals))
 			r.Parallel(len(cases), "C05 cases", func(i int) {
